@@ -272,11 +272,26 @@ def report(ctx, index, salt, found, hist):
         }))
 
 
+WALL_LIMIT = {"quick": 240, "thorough": 1500}
+
+
 async def search(ctx):
+    import time
+
+    t0 = time.time()
+    broken_runs = 0
     n = ctx.budget(240, 4000)
     st = ctx.stats
     for i in range(n):
         found, summary, hist = await asyncio.to_thread(run_case, ctx, i)
+        broken_runs += sum(1 for sig, _, _ in found if sig.startswith("director-"))
+        if broken_runs >= 3 or time.time() - t0 > WALL_LIMIT[ctx.tier]:
+            # a director that hangs or dies costs a watchdog period per case: the violation is
+            # recorded, there is no point in paying for it hundreds of times
+            st.count("search-stopped-early-after-cases", i + 1)
+            stop = True
+        else:
+            stop = False
         st.case(("hist", tuple(hist.mutations), summary["watch"]), nontrivial=summary["commands"] > summary["nbuild"])
         st.programs += 1
         st.count("histories")
@@ -296,6 +311,8 @@ async def search(ctx):
             st.sample({"history": buildkit.describe_events(hist.events)[:4], "mutations": hist.mutations,
                        "summary": summary})
         report(ctx, i, "hist", found, hist)
+        if stop:
+            break
     if not st.rule:
         st.rule = ("a case is one history: a projgen project (2-8 steps, static files, a static tree, a glob family, "
                    "sub-plan, optional steps, amended inputs/outputs, env vars, resources) followed by 1-4 phases of 1-2 "
